@@ -215,6 +215,14 @@ def run(rep):
         rep.anchor_missing("R-C16-forward", "MIR extraction failed: %s" % str(e)[-400:])
     rep.guarded("R-C16-process", rule_process)
     rep.guarded("R-C16-partial", rule_partial)
+    # the wrappers size their buffers with the getters; the core call validates against its own minimum lengths: the two must be the same
+    # expressions bit for bit, or process() fails (or over-reads) where process_into_buffer succeeds (shared with C04)
+    import C04
+    from common import RESAMPLERS
+    for t in RESAMPLERS:
+        rep.guarded("R-C04-agree", lambda r, t=t: C04.rule_agree(r, t))
+    rep.floor("R-C04-agree", 14)
+    rep.clause("R-C04-agree", "for every type the lengths the core call validates equal input_frames_next() / output_frames_next() bit for bit, i.e. the sizes the wrappers allocate (shared with C04)")
     rep.floor("R-C16-forward", 15)
     rep.floor("R-C16-process", 12)
     rep.floor("R-C16-partial", 5)
